@@ -106,6 +106,52 @@ def _dn_scan(an, prog, b, assume, st, depth):
             _dn_scan(an, prog, hb, sub, st, depth + 1)
 
 
+def sum_of_field(an, e, container, elem):
+    """e == Σ x.<elem> over `<..>.<container>.iter()`: `fold(0, |acc, x| acc.saturating_add(x.elem))`,
+    `map(|x| x.elem).fold(0, uN::saturating_add)` or `map(|x| x.elem).sum()`."""
+    e = peel(e, widen=True)
+    if not (e[0] == "call" and e[2] is not None):
+        return False, None
+
+    def elem_of(x, sym):
+        x = peel(x)
+        return x[0] == "field" and x[2] == elem and peel(x[1]) == sym
+
+    def source(it):
+        """-> (iter-over-container?, projected-already?)"""
+        it = peel(it, identity=())
+        if it[0] == "call" and it[2] is not None and it[2].npath.endswith("<impl [T]>::iter"):
+            r = peel(it[3][0])
+            return (r[0] == "field" and r[2] == container), False
+        if it[0] == "call" and it[2] is not None and it[2].nsyn == "std::iter::Iterator::map" and len(it[3]) == 2:
+            okc, proj = source(it[3][0])
+            clo = peel(it[3][1], identity=(), casts=False)
+            if okc and not proj and clo[0] == "closure":
+                res = an.interp.apply(clo, [("sym", "item")])
+                return elem_of(res, ("sym", "item")), True
+            return False, False
+        return False, False
+
+    if e[2].nsyn == "std::iter::Iterator::fold" and len(e[3]) == 3:
+        okc, proj = source(e[3][0])
+        init = const_eval(e[3][1])
+        f = peel(e[3][2], identity=(), casts=False)
+        step_ok = False
+        desc = canon(f)[:80]
+        if f[0] == "closure":
+            res = peel(an.interp.apply(f, [("sym", "acc"), ("sym", "item")]))
+            desc = canon(res)[:120]
+            if res[0] == "call" and res[2] is not None and res[2].npath.endswith("::saturating_add") and canon(peel(res[3][0])) == canon(("sym", "acc")):
+                step_ok = (peel(res[3][1]) == ("sym", "item")) if proj else elem_of(res[3][1], ("sym", "item"))
+        elif f[0] == "constfn" and proj:
+            step_ok = f[1].npath.endswith("::saturating_add")
+        return bool(okc and init == {0} and step_ok), "fold(%s, %s, %s)" % (canon(peel(e[3][0]))[:60], init, desc)
+    if e[2].nsyn == "std::iter::Iterator::sum" and e[3]:
+        okc, proj = source(e[3][0])
+        return bool(okc and proj), "sum(%s)" % canon(peel(e[3][0]))[:100]
+    return False, None
+
+
 def datanumber_table(an, prog):
     b = prog.body(DN_PARSE)
     out = {}
@@ -324,18 +370,8 @@ def run(ctx, env):
                 # denominator = Σ field_length (fold of saturating_add over all fields), possibly through a private helper
                 ok = False
                 why = canon(den)[:240]
-                if den[0] == "call" and den[2].nsyn == "std::iter::Iterator::fold":
-                    it = peel(den[3][0], identity=())
-                    init = const_eval(den[3][1])
-                    clo = peel(den[3][2], identity=(), casts=False)
-                    src_ok = it[0] == "call" and it[2].npath.endswith("<impl [T]>::iter") and peel(it[3][0])[0] == "field" and peel(it[3][0])[2] == "fields"
-                    step_ok = False
-                    if clo[0] == "closure":
-                        res = peel(an.interp.apply(clo, [("sym", "acc"), ("sym", "item")]))
-                        step_ok = res[0] == "call" and res[2].npath.endswith("::saturating_add") and canon(peel(res[3][0])) == canon(("sym", "acc")) \
-                            and peel(res[3][1])[0] == "field" and peel(res[3][1])[2] == "field_length" and peel(peel(res[3][1])[1]) == ("sym", "item")
-                        why = "fold(%s, %s, |acc, f| %s)" % (canon(it)[:60], init, canon(res)[:120])
-                    ok = src_ok and init == {0} and step_ok
+                ok, why2 = sum_of_field(an, den, "fields", "field_length")
+                why = why2 or why
                 ctx.ob("R4.4", fp.path, "total=Σ field_length over all fields", ok, why)
         Ld = lay.parser_layout(V9 + "Data::parse_be")
         okp = Ld["ok"] and len(Ld["steps"]) == 2 and Ld["steps"][1]["fields"] == ["padding"] and Ld["steps"][1]["term"][0] == "vec" and Ld["steps"][1]["term"][1] == "u8"
